@@ -157,7 +157,12 @@ pub fn push_html_k<'a>(bt: &mut crate::model::Batch<'a>, rep: &mut crate::report
     let input = src.input(o);
     match src.render(o) {
         Err(p) => {
-            rep.fail("render-total", "panic", input, p);
+            if p.contains("parse_document") {
+                // a panic of the parser is C01's subject (listed there); there is no tree to render here
+                rep.count("skipped-parse-panic");
+            } else {
+                rep.fail("render-total", "panic", input, p);
+            }
             None
         }
         Ok(r) => {
